@@ -97,6 +97,25 @@ void explore09(Options const& o, std::vector<Shim*> const& shims, std::vector<Sh
         sweep_un_range(s, op, k * P2, k * P2 + P2 - 1, o.threads, rec, ob2 | (1ull << 48) | (static_cast<u64>(ki) << 20), [&](i64 x, i64 got, u64 ord, LocalViol& lv) {
           i64 rho = x - k * P2; c.period(s, fn, rho, k, base[static_cast<size_t>(rho)], got, ord, lv); }, 65536);
         }
+      // every k of a dense range for the residues at which a reduction by word folding changes behaviour: (2^e mod 2phi) + d
+      {
+      std::vector<i64> res;
+      for( int e : { 16, 24, 32, 40, 48, 56 } ) { i64 c2 = static_cast<i64>((static_cast<i128>(1) << e) % P2); for( i64 d = -2; d <= 2; ++d ) res.push_back(((c2 + d) % P2 + P2) % P2); }
+      std::sort(res.begin(), res.end()); res.erase(std::unique(res.begin(), res.end()), res.end());
+      i64 KD = th ? (1ll << 20) : (ci < 2 ? (1ll << 17) : (1ll << 14));
+      const i64 B = 1 << 12; size_t nbk = static_cast<size_t>(KD / B);
+      for( size_t ri = 0; ri < res.size(); ++ri ) for( int sgn = 0; sgn < 2; ++sgn )
+        {
+        i64 rho = res[ri]; i64 b0 = base[static_cast<size_t>(rho)];
+        parallel_blocks(nbk, o.threads, [&](size_t blk, int) {
+          LocalViol lv(rec); std::vector<i64> xs(B), out(B);
+          for( i64 i = 0; i < B; ++i ) { i64 k = (static_cast<i64>(blk) * B + i) * (sgn ? -1 : 1); xs[static_cast<size_t>(i)] = rho + k * P2; }
+          s->fm_un_batch(op, xs.data(), xs.size(), out.data());
+          for( i64 i = 0; i < B; ++i ) { i64 k = (static_cast<i64>(blk) * B + i) * (sgn ? -1 : 1); c.period(s, fn, rho, k, b0, out[static_cast<size_t>(i)], ob2 | (3ull << 48) | (ri << 32) | (static_cast<u64>(sgn) << 31) | static_cast<u64>(static_cast<i64>(blk) * B + i), lv); }
+          });
+        rec.add_states(static_cast<u64>(KD), static_cast<u64>(KD), static_cast<u64>(KD));
+        }
+      }
       // S x k
       parallel_blocks(S.size(), o.threads, [&](size_t i, int) {
         LocalViol lv(rec);
@@ -218,6 +237,29 @@ void explore10(Options const& o, std::vector<Shim*> const& shims, std::vector<Sh
       ++poles;
       }
     rec.count("branch.pole_arguments_checked", 2 * poles);
+    // every k of a dense range for the residues at which a reduction by word folding changes behaviour: (2^e mod phi) + d
+    {
+    std::vector<i64> res;
+    for( int e : { 16, 24, 32, 40, 48, 56 } ) { i64 c2 = static_cast<i64>((static_cast<i128>(1) << e) % PHI); for( i64 d = -2; d <= 2; ++d ) res.push_back(((c2 + d) % PHI + PHI) % PHI); }
+    std::sort(res.begin(), res.end()); res.erase(std::unique(res.begin(), res.end()), res.end());
+    i64 KD = th ? (1ll << 21) : (1ll << 18);
+    const i64 B = 1 << 12; size_t nbk = static_cast<size_t>(KD / B);
+    for( size_t ri = 0; ri < res.size(); ++ri )
+      {
+      i64 rho = res[ri]; i64 b0 = base[static_cast<size_t>(rho)];
+      parallel_blocks(nbk, o.threads, [&](size_t blk, int) {
+        LocalViol lv(rec); std::vector<i64> xs(B), out(B);
+        for( i64 i = 0; i < B; ++i ) xs[static_cast<size_t>(i)] = rho + (static_cast<i64>(blk) * B + i) * PHI;
+        int sg = guarded([&]{ s->fm_un_batch(U_TAN, xs.data(), xs.size(), out.data()); });
+        for( i64 i = 0; i < B; ++i )
+          { i64 k = static_cast<i64>(blk) * B + i; u64 ord = ob | (3ull << 48) | (ri << 32) | static_cast<u64>(k);
+            if( sg ) { i64 g = 0; int s2 = guarded([&]{ g = s->fm_un(U_TAN, xs[static_cast<size_t>(i)]); }); if( s2 ) { report_trap(rec, lv, s, false, U_TAN, xs[static_cast<size_t>(i)], 0, s2, ord); continue; } out[static_cast<size_t>(i)] = g; }
+            c.period(s, rho, k, b0, out[static_cast<size_t>(i)], ord, lv); }
+        });
+      rec.add_states(static_cast<u64>(KD), static_cast<u64>(KD), static_cast<u64>(KD));
+      }
+    rec.count("dense_k_residues", res.size());
+    }
     parallel_blocks(S.size(), o.threads, [&](size_t i, int) {
       LocalViol lv(rec);
       i64 x = S[i]; i64 t = s->fm_un(U_TAN, x), tn = s->fm_un(U_TAN, -x);
